@@ -19,6 +19,7 @@ func init() { Drivers["overload"] = drvOverload }
 // OverloadScenario is one history exported by spec/Overload.tla (or a rate scenario).
 type OverloadScenario struct {
 	ID    string `json:"id"`
+	Path  string `json:"path"`
 	Steps []struct {
 		Op       string `json:"op"`
 		K        int    `json:"k"`
@@ -82,7 +83,37 @@ type ovSess struct {
 }
 
 func runOverload(rec *Rec, sc *OverloadScenario, n int) {
-	rec.SetTrace(sc.ID, map[string]interface{}{"mode": "overload", "cap": 0, "once": 0})
+	rec.SetTrace(sc.ID, map[string]interface{}{"mode": "overload", "cap": 0, "once": 0, "path": sc.Path})
+	var lis *MemListener
+	// serve admits connection b on the server by the scenario's accept path and reports the session (nil: rejected)
+	serve := func(srv erpc.Peer, a, b *Conn, cs *erpc.Session, cd chan struct{}) (erpc.Session, bool) {
+		if sc.Path != "listen" {
+			ss, st := srv.ServeConn(b)
+			return ss, st.OK() && ss != nil
+		}
+		lis.Inject(b)
+		var ss erpc.Session
+		WaitUntil(3*time.Second, func() bool {
+			if s, ok := srv.GetSession(a.LocalAddr().String()); ok && s.Health() {
+				ss = s
+				return true
+			}
+			// rejected: the accept loop closed the connection, which the client side notices
+			select {
+			case <-cd:
+				if *cs != nil {
+					select {
+					case <-(*cs).CloseNotify():
+						return true
+					default:
+					}
+				}
+			default:
+			}
+			return false
+		})
+		return ss, ss != nil
+	}
 	app := NewApp(rec, nil)
 	CurApp = app
 	var ov *overloader.Overloader
@@ -97,9 +128,9 @@ func runOverload(rec *Rec, sc *OverloadScenario, n int) {
 		var cs erpc.Session
 		cd := make(chan struct{})
 		go func() { cs, _ = cli.ServeConn(a); close(cd) }()
-		ss, st := srv.ServeConn(b)
+		ss, ok := serve(srv, a, b, &cs, cd)
 		<-cd
-		if !st.OK() || ss == nil {
+		if !ok {
 			// a rejected connection must be closed by the server
 			if cs != nil {
 				closed := WaitUntil(300*time.Millisecond, func() bool {
@@ -140,6 +171,10 @@ func runOverload(rec *Rec, sc *OverloadScenario, n int) {
 			ov = overloader.New(overloader.LimitConfig{MaxConn: int32(st.K)})
 			srv = erpc.NewPeer(erpc.PeerConfig{}, ov)
 			srv.RouteCall(new(T))
+			if sc.Path == "listen" {
+				lis = NewMemListener(fmt.Sprintf("OL%d", n))
+				go erpc.VerifServeListener(srv, lis)
+			}
 			rec.Emit("Op", "op", "limit", "k", st.K, "admitted", 0)
 			continue
 		case "raise": // also: a limit is configured for the first time
@@ -167,9 +202,9 @@ func runOverload(rec *Rec, sc *OverloadScenario, n int) {
 					var cs erpc.Session
 					cd := make(chan struct{})
 					go func() { cs, _ = cli.ServeConn(a); close(cd) }()
-					ss, s := srv.ServeConn(b)
+					ss, ok := serve(srv, a, b, &cs, cd)
 					<-cd
-					if s.OK() && ss != nil {
+					if ok {
 						mu.Lock()
 						adm++
 						res = append(res, &ovSess{srv: ss, cli: cs, conn: a})
